@@ -36,6 +36,11 @@ RULE = (
     "match must raise ValueError (enumerated).  mape-bias: non-zero 1-D "
     "truth, predictions perfect / uniformly p% high / p% low / arbitrary "
     "relative errors, a permutation and a common scale factor.  "
+    "Mixed precision (1 of 6 pinball cases): estimates as float32 / "
+    "float16 / int32 / int16 against float64 observations or the reverse, "
+    "at magnitudes 1 ... 1e10, the float64 side 0 - 0.45 resolution steps of "
+    "the narrow dtype away from a representable value (estimates in "
+    "neighbouring representable values).  "
     "Integer-typed input: pinball cases with int8 / int16 / int32 / int64 "
     "arrays (uint8 truth with float estimates), optionally scaled to the "
     "range of the dtype or mixed with float; mape-bias-int: int8 / int16 / "
@@ -80,6 +85,9 @@ def clean(v):
 
 INT_MAX = {"int8": 127, "int16": 32767, "int32": 2 ** 31 - 1,
            "int64": 2 ** 63 - 1, "uint8": 255}
+NARROW_MAGNITUDES = {"float32": [1.0, 1e4, 1e8, 1e10],
+                     "float16": [1.0, 100.0, 3e4],
+                     "int32": [1e3, 1e9], "int16": [100.0, 2e4]}
 BIG_N = [4095, 4096, 4097, 5000, 8191, 8193, 10000]
 
 
@@ -142,7 +150,39 @@ def pinball_cases(draw, large=2000):
     y_tau = [[clean(y[i] + offs[(a * i + b * j + i * j) % P])
               for j in range(k)] for i in range(n)]
     dtype = dtype_test = dtype_tau = "float"
-    if kind == "lattice" and draw(st.integers(0, 2)) == 0:
+    if draw(st.integers(0, 5)) == 0:
+        # mixed precision: one side in a narrower dtype, the other float64
+        # and closer to it than the resolution of the narrow dtype there
+        dtype = "mixed-precision"
+        narrow = draw(st.sampled_from(["float32", "float32", "float32",
+                                       "float16", "int32", "int16"]))
+        mag = draw(st.sampled_from(NARROW_MAGNITUDES[narrow]))
+        side = draw(st.sampled_from(["tau-narrow", "test-narrow"]))
+        fr = draw(st.lists(st.sampled_from(
+            [0.0, 0.1, -0.1, 0.25, -0.25, 0.4, -0.4, 0.45, -0.45]),
+            min_size=3, max_size=9))
+        ya = np.array(y, dtype=float)
+        u = np.abs(ya) % 1.0
+        sgn = np.where((ya < 0) & (not narrow.startswith("int")), -1.0, 1.0)
+        base = (sgn * mag * (0.5 + u)).astype(narrow)
+        res = (np.ones(n) if narrow.startswith("int")
+               else np.spacing(np.abs(base)).astype(float))
+        base = base.astype(float)
+        ii = np.arange(n)
+        if side == "tau-narrow":
+            # estimates: neighbouring representable values
+            f1 = np.array(fr)[(a * ii + b) % len(fr)]
+            y = (base + res * f1).tolist()
+            y_tau = np.stack([(base + j * res).astype(narrow).astype(float)
+                              for j in range(k)], axis=1).tolist()
+        else:
+            y = base.tolist()
+            y_tau = np.stack([base + res * np.array(fr)[
+                (a * ii + b * j + ii * j) % len(fr)] for j in range(k)],
+                axis=1).tolist()
+        dtype_tau = narrow if side == "tau-narrow" else "float"
+        dtype_test = narrow if side == "test-narrow" else "float"
+    elif kind == "lattice" and draw(st.integers(0, 2)) == 0:
         dtype = "int"
         y = [float(round(v)) for v in y]
         y_tau = [[float(round(v)) for v in row] for row in y_tau]
@@ -183,12 +223,17 @@ def build_pinball(case):
     dta = case.get("dtype_tau", dt)
     dtt = "float64" if dtt == "float" else dtt
     dta = "float64" if dta == "float" else dta
-    y = np.array([int(v) if dtt != "float64" else v
+    y = np.array([int(v) if "int" in dtt else v
                   for v in case["y_test"]], dtype=dtt)
     n = y.size
-    yt = np.array([[int(v) if dta != "float64" else v for v in row]
+    yt = np.array([[int(v) if "int" in dta else v for v in row]
                    for row in case["y_tau"]], dtype=dta).reshape(
         n, len(case["taus"]))
+    if not (np.array_equal(y.astype(float), np.array(case["y_test"]))
+            and np.array_equal(yt.astype(float), np.array(
+                case["y_tau"]).reshape(yt.shape))):
+        raise AssertionError("generator: values not representable in "
+                             "%s / %s" % (dtt, dta))
     y_arg = y.reshape(n, 1) if case["ytest_shape"] == "col" else y
     if case["ytau_shape"] == "flat":
         yt_arg = yt.reshape(n)
@@ -224,6 +269,17 @@ def check_pinball(case, ctx):
     ctx.label("kind-" + case["kind"], "ytau-" + case["ytau_shape"],
               "ytest-" + case["ytest_shape"], "taus-" + case["taus_form"],
               "dtype-" + case["dtype"])
+    if case["dtype"] == "mixed-precision":
+        narrow_side = ("estimates" if case["dtype_tau"] != "float"
+                       else "observations")
+        narrow = (case["dtype_tau"] if narrow_side == "estimates"
+                  else case["dtype_test"])
+        ctx.label("mixed-%s-%s-vs-float64" % (narrow, narrow_side))
+        d = np.abs(yt.astype(float) - y.astype(float).reshape(-1, 1))
+        wide = y if narrow_side == "estimates" else yt
+        lost = wide.astype(narrow).astype(float) != wide.astype(float)
+        if lost.any() and (d > 0).any():
+            ctx.label("difference-below-the-narrow-dtype's-resolution")
     if case["dtype"] == "int":
         ctx.label("ytest-dtype-" + case.get("dtype_test", "int64"),
                   "ytau-dtype-" + case.get("dtype_tau", "int64"),
@@ -645,7 +701,7 @@ def suites(tier):
     large = 2000 if tier == "quick" else 10000
     return [
         Suite("pinball", check_pinball, strategy=pinball_cases(large),
-              examples={"quick": 1300, "thorough": 8000}),
+              examples={"quick": 1150, "thorough": 8000}),
         Suite("minimiser", check_minimiser,
               strategy=minimiser_cases(300 if tier == "quick" else 600),
               examples={"quick": 650, "thorough": 2500}),
